@@ -401,6 +401,8 @@ def all_families():
     out = {}
     for f in (short_circuit, eval_order, scopes, loops, data, imports, externs, name_reuse, maps):
         out.update(f())
+    from .families_lib import lib_families       # programs over the standard library (NanoLib.tla)
+    out.update(lib_families())
     import os, re
     if os.environ.get("VERIF_ONLY"):          # developer aid: restrict the corpus to the families whose name matches
         out = {k: v for k, v in out.items() if re.search(os.environ["VERIF_ONLY"], "fam_" + k)}
